@@ -558,6 +558,14 @@ def run_shard(shard):
                         continue
                     for value in NEW_VALUES:
                         check_set(text, segs, value, res, doc_a)
+                    if isinstance(node, str) and node.isalpha() and \
+                            node.lower() not in ("true", "false", "null",
+                                                 "yes", "no", "on", "off"):
+                        # the value it already holds (a re-run of the same
+                        # edit): nothing may change - a Set keeps its member
+                        check_set(text, segs, str(node), res, doc_a)
+                        res.label("set-to-its-own-value:%s" % (
+                            "set-member" if is_set(parent) else "other"))
                     if is_seq(parent) and len(segs) >= 2 and \
                             shard.get("keyvar") is None:
                         # the same element reached through a Collector that
